@@ -355,13 +355,6 @@ fn run_resolve(opts: &GenOpts) -> RunOutcome {
         probe("c05_panic_skipped");
         return out;
     };
-    if first.status == clarabel::solver::SolverStatus::NumericalError {
-        // the arithmetic broke down; what the work buffers hold afterwards (and hence
-        // the garbage iterate of the next attempt) is specified by no property
-        probe("c05_numerical_error_not_compared");
-        out.summary = format!("re-solve: {} -> NumericalError (not compared)", prob.describe());
-        return out;
-    }
     // second solve on the same object
     match sv_solve(0, &mut fresh) {
         Ok(second) => {
